@@ -64,7 +64,12 @@ ASSUMPTIONS = [
     'exception type is not asserted for builtin classes outside the documented list that have no initialiser of their own '
     '(ZeroDivisionError, IndexError...: DESIGN 6 calibration, reported as the same root cause as finding shape '
     'no_initless_subclass_of_builtin_error)',
-    'shapes of reported findings are excluded by construction (coverage.classes excluded:*)',
+    'source-map entries keyed by a line of the original file (one stray identity entry per conversion, left by copy_origin '
+    'annotating the interpreter-wide ast.Load singleton) are not entries for generated lines: counted, not checked',
+    'the cause message is looked up in str(exception) after removing the four-space indentation get_message adds to every line',
+    'shapes of reported findings are excluded by construction (coverage.classes excluded:*): initless user subclass of a builtin '
+    'error other than Exception, self-recursive links, failing default/decorator of a nested def, arity errors on converted '
+    'callees, KeyError crossing two malt.convert wrappers, assert under ASSERT_STATEMENTS',
 ]
 LEVEL_TEXT = ('Randomised exploration of (program, failing statement, position, chain shape, options); every case is executed '
               'both ways and compared against the interpreter\'s own traceback. No claim beyond the cases counted.')
@@ -76,14 +81,14 @@ _KEEP = []
 EXCL = ('no_all_branch_rebind_in_nested_block', 'no_handler_only_binding', 'no_try_else', 'no_for_target_rebind',
         'no_lambda_capture_across_rebind', 'no_impure_chain_middle', 'no_jump_in_handler_with_finally')
 # shapes of C12 findings, excluded by construction (each redirected draw is counted)
-C12_EXCL = ('no_initless_subclass_of_builtin_error', 'no_recursive_link', 'no_failing_def_header',
-            'no_arity_error_on_converted_callee', 'no_keyerror_through_reentry',
-            'no_assert_under_ASSERT_STATEMENTS')
+# FC12a, FC12e and FC12f were repaired in /repo (fix: commits): their shapes are generated again
+C12_EXCL = ('no_recursive_link', 'no_failing_def_header', 'no_arity_error_on_converted_callee',
+            'no_assert_under_ASSERT_STATEMENTS')   # FC12g: the asserts converter replaces a missing message and rejects non-constant ones
 
 
 def budget(tier):
   if tier == 'thorough':
-    return {'cases': 9000, 'max_depth': 4, 'budget': 16, 'kbudget': 10, 'max_chain': 4, 'shrink_s': 90, 'wall_cap': 3000}
+    return {'cases': 7500, 'max_depth': 4, 'budget': 16, 'kbudget': 10, 'max_chain': 4, 'shrink_s': 90, 'wall_cap': 3000}
   return {'cases': 720, 'max_depth': 3, 'budget': 12, 'kbudget': 8, 'max_chain': 3, 'shrink_s': 20, 'wall_cap': 600}
 
 
@@ -889,7 +894,8 @@ def run_case(case):
           except Exception as e:  # noqa
             got = e
     except diffobs.Timeout:
-      fails.append(('timeout', {}))
+      # safety net only (DESIGN 1.2): a hang of converted code is C01's subject; counted, never a violation here
+      info['status'] = 'timeout'
       return fails, info
     finally:
       if hasattr(mod, '_RC'):
